@@ -156,6 +156,8 @@ pub enum Op {
     DropFile { h: u8 },
     DropDir { d: u8 },
     Extents { h: u8 },
+    /// replace the handle by its `Clone` and drop the original (the clone must be an equivalent handle)
+    CloneFile { h: u8 },
     /// set a timestamp to `instant(tick)`
     SetTime { h: u8, which: Which, tick: u32 },
     Stats,
@@ -678,6 +680,7 @@ pub fn enabled(m: &Model, op: &Op) -> bool {
         | Op::Flush { h }
         | Op::DropFile { h }
         | Op::Extents { h }
+        | Op::CloneFile { h }
         | Op::SetTime { h, .. } => m.fh[*h as usize].is_some(),
         Op::DropDir { d } => m.dh[*d as usize].is_some(),
         Op::Stats | Op::StatusFlags | Op::Label | Op::Meta | Op::Remount | Op::DropRemount | Op::Abandon => true,
@@ -976,6 +979,9 @@ pub fn model_step(m: &mut Model, op: &Op, res: &Res, ticks: (u32, u32), atime: b
         Op::Extents { .. } | Op::Stats | Op::StatusFlags | Op::Label | Op::Meta => {
             ex.no_opinion = true;
         }
+        Op::CloneFile { .. } => {
+            // the model does not change: same file, same cursor, same pending metadata
+        }
         Op::Remount | Op::DropRemount | Op::Abandon => {
             m.close_all();
             m.changed_since_mount = false;
@@ -1184,6 +1190,13 @@ fn exec_op<'a>(fs: &'a Fs, slots: &mut Slots<'a>, m: &Model, op: &Op, cluster_si
                 }
             }
             Ok(Out::Extents(v))
+        }
+        Op::CloneFile { h } => {
+            let f = slots.files[*h as usize].take().unwrap();
+            let c = f.clone();
+            drop(f);
+            slots.files[*h as usize] = Some(c);
+            Ok(Out::Unit)
         }
         Op::SetTime { h, which, tick } => {
             let f = slots.files[*h as usize].as_mut().unwrap();
